@@ -41,3 +41,12 @@ package net
 //@ func (*server).processPushlog -> (r, err)
 //@   assert before call#1 Publish: res(syncDAG, 1, 0) == nil && callarg(syncDAG, 1, 2) == res(GetFromBytes, 1, 0)
 //@   tags C04 C12
+//@
+//@ // ===== C04: handlers never write a block under a caller-supplied cid: the only writes go through the
+//@ // link system (syncDAG), which files a node under the hash of its own bytes
+//@ extern (blockservice.BlockService).AddBlock(bs, ctx, b) -> (e)
+//@   requires false
+//@ extern (blockservice.BlockService).AddBlocks(bs, ctx, b) -> (e)
+//@   requires false
+//@ extern blocks.NewBlockWithCid(data, c) -> (b, e)
+//@   requires false
